@@ -4,7 +4,7 @@ import colorgen
 
 CLAIMED = True
 LEVEL = 'proof'
-LEVEL_TEXT = ('Proof: 32 Coq theorems. convert_channel is modelled exactly as written (24-bit reciprocal, constants regenerated from '
+LEVEL_TEXT = ('Proof: 39 Coq theorems. convert_channel is modelled exactly as written (24-bit reciprocal, constants regenerated from '
               'conversion.rs): for all 64 (from bits, to bits) pairs in 1..8 and every value it returns the representable value nearest to '
               'the exactly scaled one (2*|r*from_max - v*to_max| <= from_max), is monotone, maps 0 to 0 and max to max, widen-then-narrow is '
               'the identity, and no intermediate leaves u32 (decided by vm_compute; monotonicity derived). Whole colours, quantified over the '
@@ -18,8 +18,11 @@ LEVEL_TEXT = ('Proof: 32 Coq theorems. convert_channel is modelled exactly as wr
               '8-bit luma >= 128; BinaryColor->X gives BLACK/WHITE. The macro bodies are transcribed once in coq/Model/Colormodel.v and tied '
               'to the code by the translator (fails closed on any change of a macro body) and by running the extracted model against the '
               'real From impls for all 196 type pairs.')
-LEVEL_NOTE = ('"Nearest" is not claimed (and is false in general) for RGB->Gray and RGB->BinaryColor, which round twice; the theorems state '
-              'what the code computes plus extremes and monotonicity, as the property demands. Trusted: Coq kernel incl. vm_compute, the regex '
+LEVEL_NOTE = ('"Nearest" (half a target step) is FALSE for the 30 RGB->Gray conversions, which round twice (machine-checked witness '
+              'C13_rgb_gray_nearest_refuted, see FINDINGS-C13.md and PARTIAL); for them the theorems give the computed formula, nearest of '
+              'the second stage, an end-to-end bound of 1/2 + max_luma/255 steps against exact arithmetic, extremes and monotonicity. '
+              'The luma weights and all other literals read by the translator are pinned to their documented values '
+              '(C13_luma_is_bt601, C13_constants_pinned). Trusted: Coq kernel incl. vm_compute, the regex '
               'translator, extraction, the drivers; u8/u16/u32 arithmetic is modelled in Z with the no-overflow facts proved '
               '(C13_channel_no_overflow, C13_luma_weights). The Rust-side search p_conv checks the property itself against exact integer '
               'rounding on every source value of every pair (2^24 values for the 24-bit types).')
@@ -28,6 +31,7 @@ RULE = ('correspondence (extracted model vs real library): conv A B = storage of
         'arithmetic progressions (random start, stride in {1, 257, 4099, 65537}) covering 2^13 (quick) / 2^16 (thorough) values per pair for '
         '16/32-bit storage, plus the first and last 256 storage values. search: p_conv A B evaluates the property on the implementation against '
         'exact integer rounding (no reciprocal): black/white, every channel nearest (rgb->rgb, gray->gray, gray->rgb), rgb->gray = documented '
+        '8-bit luma formula AND the end-to-end error bound against exact rational luma, '
         '8-bit luma of the 8-bit scaled channels scaled to the target + monotone in every channel, widen-then-narrow identity, '
         'gray/rgb -> binary upper half, binary -> black/white; for every pair over ALL source values (2^24 for the 24-bit types). '
         'web T = storage of all 141 CSS constants of T (p_web: against the CSS values scaled to nearest). '
@@ -37,7 +41,10 @@ ASSUMPTIONS = ['a colour value of type t is an integer 0 <= c < 2^(used bits of 
 TRUSTED = ['modelled, not verified: u8/u16/u32 `*`, `/`, `<<`, `>>`, `as` as Z operations (no-overflow facts are theorems)',
            'translate/gen_colors.py: regex reading of the impl_*conversion!/impl_*binary! rows and of the literal constants; literal shape '
            'checks of convert_channel, luma and the seven conversion macro bodies that Model/Colormodel.v transcribes']
-PARTIAL = []
+PARTIAL = ['C13_rgb_gray_error_bound_partial: the clause "each channel nearest, error at most half a step of the target" for the 30 RGB->Gray '
+           'conversions. The code rounds twice (channels to 8 bit, 8 bit luma to the target), so the full clause is FALSE on the code '
+           '(C13_rgb_gray_nearest_refuted: Rgb565(7,11,20) -> Gray8 = 63, exact 62.04); proved instead: second stage nearest '
+           '(C13_rgb_gray_second_stage_nearest), end-to-end error <= 1/2 + max_luma/255 target steps, <= 1 step for Gray8, extremes, monotone']
 
 
 def cases(tier, rng):
